@@ -562,6 +562,10 @@ def do_use(env, st, step):
             str(c)
         elif what == "quantity":
             c.Quantity(arg)
+        elif what == "aux":
+            import sideeffects
+
+            sideeffects.exercise()
         elif what == "siblings":
             # the library's other table objects share helpers (datum.print_variables, Datum) with the constants
             import qcelemental as qcel
@@ -648,6 +652,7 @@ def make_sequences(rng, ctx: Ctx):
         [N("2014"), U(0, "repr"), N("2014"), N("2018")],
         [U("default", "repr"), N("2018"), U("2018", "repr"), N("default-arg")],
         [U("default", "siblings"), N("2014"), N("2018")],
+        [N("2018"), U(0, "ureg"), U(0, "conv"), N("2018"), U("default", "aux"), N("2014"), N("2018")],
     ]
     names14 = ["Hartree energy", "molar Planck constant times c", "hartree2kcalmol", "Bohr radius", "electric constant", "calorie-joule relationship"]
     convs = [("bohr", "angstrom"), ("hartree", "kcal/mol"), ("hartree", "wavenumber")]
@@ -925,6 +930,9 @@ def build_cases(env: Env, rng, ctx: Ctx):
 
 def run(ctx: Ctx) -> Outcome:
     out = Outcome()
+    import sideeffects
+
+    sideeffects.exercise(out)  # header writers / printers / comparison reports before anything is built or looked up
     env = Env()
     import decimal
 
@@ -999,6 +1007,9 @@ def run(ctx: Ctx) -> Outcome:
 
 def replay(ctx: Ctx, case) -> Outcome:
     out = Outcome()
+    import sideeffects
+
+    sideeffects.exercise()
     env = Env()
     got = impl_of(env, case)
     line = line_of(case)
